@@ -359,7 +359,7 @@ func VerifC12Race(h *verifh.H) {
 	worker := NewCompactor(hub.Store, hub.Dsm, hub.Env.Logger)
 	var cerr, werr error
 	h.SymbolicLocks() // also preempt before every lock acquisition (the flush takes the dataset lock)
-	h.SymbolicTxns() // every Badger transaction start of /repo code is a scheduling point too
+	h.SymbolicTxns()  // every Badger transaction start of /repo code is a scheduling point too
 	h.SymbolicSched(h.Param("preemptions", 2))
 	h.Go(func() { cerr = worker.compact("d", strategy) })
 	h.Go(func() { werr = ds.StoreEntities([]*server.Entity{vMk("ns0:e1", w)}) })
